@@ -4,6 +4,9 @@ import (
 	"simlal/sim/actors"
 	"time"
 
+	"bytes"
+	"encoding/base64"
+	"encoding/hex"
 	"encoding/json"
 	"fmt"
 	"os"
@@ -43,7 +46,7 @@ func TrackHls(k *sim.Kernel) *HlsTracker {
 
 func genC16Plan(r *sim.Rng, tier string) RelayPlan {
 	prof := RelayProfile{
-		Protos:         []string{"rtmp", "flv", "ts", "wsflv"},
+		Protos:         []string{"rtmp", "flv", "ts", "wsflv", "rtsp"},
 		MaxUnits:       60,
 		MaxCons:        4,
 		Republish:      0.7,
@@ -69,6 +72,7 @@ func genC16Plan(r *sim.Rng, tier string) RelayPlan {
 		return q
 	}
 	pl.Conf.TsEnable = r.Bool(0.8)
+	pl.Conf.RtspEnable = true
 	pl.Conf.HlsEnable = r.Bool(0.7)
 	pl.Conf.HlsFragMs = []int{200, 500, 1000, 3000}[r.Intn(4)]
 	pl.Conf.HlsFragNum = 1 + r.Intn(6)
@@ -348,6 +352,52 @@ func CheckC16(k *sim.Kernel, rr *RelayRun, hls *HlsTracker) {
 			if ok && dead[inc] {
 				k.Violate("C16.stale-data", "cons%d(%s) joined after publisher incarnation %d had left, yet item #%d %s comes from it", ci, c.Plan.Proto, inc, j, describe(&it))
 			}
+		}
+	}
+	// 5b. the same for what an RTSP player is told in its DESCRIBE answer: the SDP must not be the predecessor's
+	for ci, c := range rr.Cons {
+		if c.Rtsp == nil || c.Rtsp.SdpRecv == "" || c.Rtsp.DescribeStep <= 0 {
+			continue
+		}
+		var dead, alive []*PubState
+		for _, p := range accepted[c.Plan.Stream] {
+			if p.Actor.ClosedStep >= 0 && p.Actor.ClosedStep < c.Rtsp.DescribeStep && p.Actor.Conn.Idle2() {
+				dead = append(dead, p)
+			} else {
+				alive = append(alive, p)
+			}
+		}
+		carries := func(ps []*PubState, kind media.Kind, b []byte) *PubState {
+			for _, p := range ps {
+				for i := range p.Units {
+					if p.Units[i].Kind == kind && bytes.Contains(p.Units[i].Msg.Payload, b) {
+						return p
+					}
+				}
+			}
+			return nil
+		}
+		for _, t := range actors.ParseSdpTracks(c.Rtsp.SdpRecv) {
+			var blob []byte
+			kind := media.KVideoSeq
+			switch t.Enc {
+			case "H264":
+				if parts := strings.Split(t.Fmtp["sprop-parameter-sets"], ","); len(parts) == 2 {
+					blob, _ = base64.StdEncoding.DecodeString(parts[1])
+				}
+			case "H265":
+				blob, _ = base64.StdEncoding.DecodeString(t.Fmtp["sprop-pps"])
+			case "MPEG4-GENERIC":
+				kind = media.KAudioSeq
+				blob, _ = hex.DecodeString(t.Fmtp["config"])
+			}
+			if len(blob) == 0 {
+				continue
+			}
+			if d := carries(dead, kind, blob); d != nil && carries(alive, kind, blob) == nil {
+				k.Violate("C16.stale-sdp", "cons%d(%s) sent DESCRIBE after publisher incarnation %d had left, yet the SDP it got describes that publisher's %s parameters (%x)", ci, c.Plan.Proto, d.Plan.Inc, t.Enc, blob)
+			}
+			k.Probe("c16_rtsp_sdp_checked")
 		}
 	}
 	// 6. everything is gone at the end
